@@ -374,9 +374,11 @@ void vd_install_handlers(void)
     sigaction(SIGSEGV, &sa, NULL); sigaction(SIGBUS, &sa, NULL); sigaction(SIGFPE, &sa, NULL); sigaction(SIGILL, &sa, NULL);
     sigaction(SIGABRT, &sa, NULL);
     memset(&sa, 0, sizeof(sa)); sa.sa_handler = on_alarm; sa.sa_flags = SA_NODEFER | SA_ONSTACK | SA_RESTART;
-    sigaction(SIGALRM, &sa, NULL);
+    /* the period is measured in CPU time of this process (user + system), not wall-clock time: a machine busy with other work cannot make a
+     * case look like a hang */
+    sigaction(SIGPROF, &sa, NULL);
     it.it_interval.tv_sec = 5; it.it_interval.tv_usec = 0; it.it_value = it.it_interval;
-    setitimer(ITIMER_REAL, &it, NULL);
+    setitimer(ITIMER_PROF, &it, NULL);
 }
 void vd_tick(void) { vd_progress++; }
 
